@@ -1835,8 +1835,8 @@ func runWitness(c *mon.Case) {
 }
 
 func main() {
-	mon.SetNote("rule", "case = one generated alignment (0..6 random rows over nucleotide or protein residue mixes with leading/trailing/internal gap runs, gap-only rows, near copies, plus rows spelling the column index in base 4/20 so that every column is unique; 0..130 columns from a boundary-heavy list; hostile names; shuffled row order) and, per sub-check, the complete cross product of the boundary values {-1,0,1,2,L/2,L-2,L-1,L,L+1, random interior, huge} for every integer argument (window: start x length for SubAlign and InverseCoordinates, trim sizes x both ends, every boundary cut of prefix+suffix; sites: 14 kinds of site lists incl. empty, repeats, descending, single boundary values, one bad element; refcoord: one reference row, all (start,length) pairs in -1..U+1 when the reference has <= 9 residues, boundary cross product otherwise, RefSites lists incl. sites between the number of residues and the alignment length; concat: a partner alignment with same/shuffled/subset/superset/disjoint/overlapping/no names and another width; split: contiguous, codon, codon+flank, modulo, scattered, incomplete, single, out-of-range and overlapping partition definitions built through AddRange or through the partition file parser; transform: Transpose, DiffWithFirst, ReplaceMatchChars). Each call is compared with the list computation of ref.go and each stated re-assembly relation is executed. Non-trivial = every case (each carries boundary-valued arguments or a gapped reference); distinct = (rows, arguments).")
-	mon.SetNote("assumptions", "reference model mon/c04/ref.go written from the statement and the interface documentation;; only '-' is a gap of the reference sequence;; a window (start,length) is valid iff 0 <= start, 0 <= length, start+length <= L (an empty window at 0 or at L is valid: the statement names the empty prefix);; TrimSequences(size >= L) is an error as documented;; open corners accepted in every reading: SelectSites(empty list) may fail or give rows without residues; RefCoordinates with length 0 may fail or give an empty window; RefSites may answer with the ascending set of positions or with one position per requested site in the requested order; InverseCoordinates may split the complement into any ascending disjoint windows (empty ones allowed); DiffWithFirst on characters differing only by case; Split with unassigned sites may fail; a range with start > end may fail or define nothing; a partition without site gives a block without row; after Concat the rows only the argument has may come in any order after the receiver's rows; names that collide in Append are renamed by goalign;; result alphabets, comments and buffer sharing are not compared (C19)")
+	mon.SetNote("rule", "case = one generated alignment (0..6 random rows over nucleotide or protein residue mixes with leading/trailing/internal gap runs, gap-only rows, near copies, plus rows spelling the column index in base 4/20 so that every column is unique; 0..130 columns from a boundary-heavy list; hostile names; shuffled row order) and, per sub-check, the complete cross product of the boundary values {-1,0,1,2,L/2,L-2,L-1,L,L+1, random interior, huge} for every integer argument (window: start x length for SubAlign and InverseCoordinates, trim sizes x both ends, every boundary cut of prefix+suffix; sites: 14 kinds of site lists incl. empty, repeats, descending, single boundary values, one bad element; refcoord: one reference row, all (start,length) pairs in -1..U+1 when the reference has <= 9 residues, boundary cross product otherwise, RefSites lists incl. sites between the number of residues and the alignment length; concat: a partner alignment with same/shuffled/subset/superset/disjoint/overlapping/no names and another width; split: contiguous, codon, codon+flank, modulo, scattered, incomplete, single, out-of-range and overlapping partition definitions built through AddRange or through the partition file parser; transform: Transpose, DiffWithFirst, ReplaceMatchChars). Each call is compared with the list computation of ref.go and each stated re-assembly relation is executed. Non-trivial = every case (each carries boundary-valued arguments or a gapped reference); distinct = (rows, arguments). Sub-check cli-multi (climulti.go): subseq / subsites / split / extract as real processes on Phylip files holding 1..4 alignments of different lengths, rows and reference gaps (relaxed or strict, any output layout flags), with ONE set of user coordinates: subseq with --ref-seq / --step / --reverse to stdout or to the documented files <name>[_al<i>][_sub<j>]<ext>, subsites with positional sites or --sitefile (repeats, any order), --ref-seq, --reverse, split and extract; coordinates inside every alignment (every output compared with ref.go, per alignment) or outside at least one of them (the command must fail).")
+	mon.SetNote("assumptions", "reference model mon/c04/ref.go written from the statement and the interface documentation;; only '-' is a gap of the reference sequence;; a window (start,length) is valid iff 0 <= start, 0 <= length, start+length <= L (an empty window at 0 or at L is valid: the statement names the empty prefix);; TrimSequences(size >= L) is an error as documented;; open corners accepted in every reading: SelectSites(empty list) may fail or give rows without residues; RefCoordinates with length 0 may fail or give an empty window; RefSites may answer with the ascending set of positions or with one position per requested site in the requested order; InverseCoordinates may split the complement into any ascending disjoint windows (empty ones allowed); DiffWithFirst on characters differing only by case; Split with unassigned sites may fail; a range with start > end may fail or define nothing; a partition without site gives a block without row; after Concat the rows only the argument has may come in any order after the receiver's rows; names that collide in Append are renamed by goalign;; result alphabets, comments and buffer sharing are not compared (C19);; cli-multi: input files are written with goalign's Phylip writer (checked by C02), outputs are read by a reader written from the format description (climulti.go);; cli-multi: documented and demanded: subseq writes one output per alignment and window, in the order of the file on stdout, in <name>[_al<i>][_sub<j>]<ext> otherwise (and no other file); extract considers the first alignment only; subsites with -o says nothing about the alignments after the first one: all in the given file or <name>_al<i><ext> are accepted; split says nothing about several alignments: the blocks of the first or of the last alignment are accepted (all blocks from the same one); the extension of the files written by split / extract is not compared;; cli-multi: the corners where the cli sub-check admits an error as well as a result (window running over the end of one alignment, empty request, --reverse leaving nothing) are only checked for crashes; a Phylip file without any alignment: nothing to do or an error, never a crash")
 	mon.SetNote("exhaustive_subspaces", "refcoord: for every reference row with at most 9 residues all (start,length) pairs of -1..U+1 x -1..U+1 are executed; witness 3 and 7: all windows of -1..L+1 (resp. -1..8) on fixed alignments")
 	for _, op := range []string{"SubAlign", "InverseCoordinates", "TrimSequences", "SelectSites", "InversePositions", "RefCoordinates", "RefSites", "Concat", "Append", "AddRange", "ParsePartition", "PartitionSet.String", "Split", "Transpose", "DiffWithFirst", "ReplaceMatchChars"} {
 		mon.Floor("op:"+op, 1000)
@@ -1867,6 +1867,7 @@ func main() {
 		"cli-subsites:ok": 20, "cli-subsites:must-fail": 20, "cli-subsites:ref-seq": 40, "cli-subsites:reverse": 30, "cli-split:ok": 15, "cli-split:must-fail": 10, "cli-extract:ok": 15, "cli-extract:must-fail": 10, "cli-extract:several-blocks": 10} {
 		mon.Floor(k, n)
 	}
+	cliMultiFloors()
 	mon.Main("C04", []mon.Sub{
 		{Name: "witness", Quick: len(witnesses), Thorough: len(witnesses), Run: runWitness},
 		{Name: "window", Quick: 30000, Thorough: 1200000, Run: runWindow},
@@ -1881,5 +1882,12 @@ func main() {
 			c.NonTrivial("cli-witness", gen.Itoa(c.Idx))
 		}},
 		{Name: "cli", Quick: 800, Thorough: 12000, Serial: true, Run: runCli},
+		// Phylip files holding several alignments through the same commands (climulti.go)
+		{Name: "witness-cli-multi", Quick: 6, Thorough: 6, Run: func(c *mon.Case) {
+			c.Input(map[string]interface{}{"cli-multi-witness": c.Idx})
+			cliMultiWitness(c, c.Idx)
+			c.NonTrivial("cli-multi-witness", gen.Itoa(c.Idx))
+		}},
+		{Name: "cli-multi", Quick: 320, Thorough: 8000, Run: runCliMulti},
 	})
 }
